@@ -30,6 +30,40 @@ def arm_watchdog(seconds):
     threading.Thread(target=sleeper, daemon=True).start()
 
 
+def generic_replay(mod, rp):
+    """Checks without their own replay: every input is derived from (seed, tier) by one PRNG, so running the check
+    again with the recorded seed and tier regenerates exactly the recorded inputs; report which of the recorded
+    failures (by signature / theorem / correspondence) occur again on the tree as it is now."""
+    ctx = common.Ctx(rp["property"], rp["tier"], int(rp["seed"]))
+    arm_watchdog(int(os.environ.get("VERIF_BUDGET", "2700" if rp["tier"] == "quick" else "14400")))
+    try:
+        mod.run(ctx)
+    except BudgetExceeded as e:
+        print("REPLAY %s: no verdict within the time budget (%s)" % (rp["property"], str(e)[:200]))
+        sys.stdout.flush()
+        os._exit(1)
+    except Exception as e:
+        ctx.proof_failures.append({"theorem": "(check machinery)", "error": "%s: %s" % (type(e).__name__, e)})
+    now = {v.get("signature") for v in ctx.violations}
+    again = 0
+    for v in rp.get("failing_inputs", []):
+        hit = v.get("signature") in now
+        again += hit
+        print("REPLAY %s input %s: %s -- %s" % (rp["property"], v.get("signature"), "FAILS AGAIN" if hit else "passes now", v.get("what", "")))
+    for b in rp.get("broken_proof_obligations", []):
+        hit = any(x.get("theorem") == b.get("theorem") for x in ctx.proof_failures)
+        again += hit
+        print("REPLAY %s obligation %s: %s" % (rp["property"], b.get("theorem"), "STILL BROKEN" if hit else "checks now"))
+    for b in rp.get("broken_correspondence", []):
+        hit = any(x.get("correspondence") == b.get("correspondence") for x in ctx.corr_failures)
+        again += hit
+        print("REPLAY %s correspondence %s: %s" % (rp["property"], b.get("correspondence"), "STILL DIFFERS" if hit else "agrees now"))
+    new = [v for v in ctx.violations if v.get("signature") not in {w.get("signature") for w in rp.get("failing_inputs", [])}]
+    for v in new:
+        print("REPLAY %s: additional failing input now: %s -- %s" % (rp["property"], v.get("signature"), v.get("what", "")))
+    return 1 if (again or new) else 0
+
+
 def main():
     ap = argparse.ArgumentParser()
     ap.add_argument("pid")
@@ -42,8 +76,9 @@ def main():
     if a.replay:
         with open(a.replay) as f:
             rp = json.load(f)
-        rc = mod.replay(ctx, rp)
-        sys.exit(rc)
+        if hasattr(mod, "replay"):
+            sys.exit(mod.replay(ctx, rp))
+        sys.exit(generic_replay(mod, rp))
     # a call into the implementation that never returns (most calls are individually guarded, a few cannot be:
     # threads, scipy callbacks) must not leave the check without a verdict
     arm_watchdog(int(os.environ.get("VERIF_BUDGET", "2700" if a.tier == "quick" else "14400")))
